@@ -8,6 +8,11 @@ mod io;
 mod types;
 mod vm;
 
+#[cfg(koto_verif)]
+pub mod verif_clock;
+#[cfg(koto_verif)]
+pub use crate::vm::VerifVmState;
+
 pub mod core_lib;
 pub mod prelude;
 mod send_sync;
